@@ -76,9 +76,7 @@ Theorem c07_sharded_three_views_agree : forall c t l,
   ds_init_sharded repaired c t = Ok l ->
   ds_declared repaired c t = Ok l /\
   exists pl, ds_pspec repaired c t = Ok pl /\ pspec_matches l pl = true.
-Proof.
-  exact (fun c t l H => conj (declared_is_init c t l H) (pspec_matches_init c t l H)).
-Qed.
+Proof. exact three_views_agree. Qed.
 Print Assumptions c07_sharded_three_views_agree.
 
 (* every list index / slice of the model is in range: one slot per block and preconditioned axis
